@@ -71,9 +71,9 @@ theorem C13_encrypt_stream_is_seal_partial (P : Prims) (bs : Nat) (hb : 0 < bs) 
     concatenation (UNCONDITIONALLY a prefix of it; all of it when the constructor
     and `Close` report success) -/
 theorem C13_detached_stream_independent (pieces : Bytes → List Bytes) (hbytes : Bytes) (sp : Bytes → Bytes)
-    (sink : Stream.Sink) (ws ws' : List Bytes) (hsame : ws.flatten = ws'.flatten) :
-    (DSt.writes (DSt.init Wr.write pieces ({ sink := sink } : Wr) hbytes).2 ws).2.close Wr.write pieces sp =
-      (DSt.writes (DSt.init Wr.write pieces ({ sink := sink } : Wr) hbytes).2 ws').2.close Wr.write pieces sp := by
+    (sink : Stream.Sink) (part : List Nat) (ws ws' : List Bytes) (hsame : ws.flatten = ws'.flatten) :
+    (DSt.writes (DSt.init Wr.write pieces ({ sink := sink, part := part } : Wr) hbytes).2 ws).2.close Wr.write pieces sp =
+      (DSt.writes (DSt.init Wr.write pieces ({ sink := sink, part := part } : Wr) hbytes).2 ws').2.close Wr.write pieces sp := by
   rw [(det_writes ws _).1, (det_writes ws' _).1, hsame]
 
 /-! ## non-vacuity: three splits of [1,2,3,4,5] (toy configuration: 2-byte blocks) -/
